@@ -452,7 +452,12 @@ class Engine:
                 hash((json.dumps(last["st"], sort_keys=True) if last else "", last["a"] if last else "",
                       tuple(labels), len(self.trace) and self.mainpos))
             )
-        i = self.chooser.choose(labels, self)
+        try:
+            i = self.chooser.choose(labels, self)
+        except MachineryError:
+            raise
+        except Exception as e:      # a defect of the harness must never look like an outcome of the code under test
+            raise MachineryError(f"chooser failed: {e!r}")
         self.choices.append(i)
         return opts[i]
 
@@ -657,10 +662,10 @@ class Engine:
 
     # ------------------------------------------------------------ main-thread program
     def build(self, name):
-        from xvschema.sched import Node, NodeOut, Holder, Pre
+        from xvschema.sched import Node, NodeOut, NodePass, Holder, Pre
 
         spec = self.plan["jobs"][name]
-        cls = NodeOut if spec.get("out") else Node
+        cls = NodePass if spec.get("pass") else NodeOut if spec.get("out") else Node
         kw = {"name": name}
         lst, dct, inners = [], {}, []
         pre, init, explicit = [], [], []
@@ -682,6 +687,8 @@ class Engine:
                 init.append(Pre(up=o, label="init-" + up))
             elif how == "explicit":
                 explicit.append(up)
+            elif how == "meta":
+                kw["metaup"] = o
             else:
                 raise MachineryError(f"unknown embedding {how}")
         if lst:
@@ -723,7 +730,7 @@ class Engine:
             self.waiter = "ok"
         except FailedExperiment:
             self.waiter = "failed"
-        except SchedulerDeath:
+        except (SchedulerDeath, QuiescentHang, MachineryError):
             raise
         except Exception as e:
             self.waiter = "EXC:" + type(e).__name__
@@ -741,7 +748,7 @@ class Engine:
         self.record("JobWaitCall", {"j": key})
         try:
             r = job.wait().name
-        except SchedulerDeath:
+        except (SchedulerDeath, QuiescentHang, MachineryError):
             raise
         except Exception as e:
             r = "EXC:" + type(e).__name__
@@ -932,8 +939,20 @@ class RandomChooser:
         self.pstep = prof[0] if pstep is None else pstep
         self.pmain = prof[1] if pmain is None else pmain
         self.psig = None
+        # priority schedules: one kind of step is starved (taken only when nothing else is enabled, or rarely), which
+        # stretches the window during which it is pending over everything else that can happen
+        self.starve = random.Random(seed * 2654435761 % 2**32).choice(
+            [None, None, None, "thread:lockout_abort", "thread:lockin", "thread:lockout", "thread:procwait", "thread:donehandler",
+             "pexit", "plock", "step"])
 
     def choose(self, labels, engine):
+        if self.starve and len(labels) > 1:
+            keep = [k for k, x in enumerate(labels) if not x.startswith(self.starve)]
+            if keep and len(keep) < len(labels) and random.Random(self.rng.random()).random() < 0.97:
+                return keep[self._choose([labels[k] for k in keep], engine)]
+        return self._choose(labels, engine)
+
+    def _choose(self, labels, engine):
         if "sigint" in labels:
             # Ctrl-C: early, late or never, depending on the execution
             if self.psig is None:
@@ -941,7 +960,9 @@ class RandomChooser:
             if random.Random(self.rng.random()).random() < self.psig:
                 return labels.index("sigint")
             rest = [k for k, x in enumerate(labels) if x != "sigint"]
-            return rest[self.choose([labels[k] for k in rest], engine)]
+            if not rest:
+                return labels.index("sigint")
+            return rest[self._choose([labels[k] for k in rest], engine)]
         if "step" in labels and self.rng.random() < self.pstep:
             return labels.index("step")
         if "main" in labels and self.rng.random() < self.pmain:
